@@ -250,13 +250,14 @@ fn c07_send_repeated_pixel_bounded() {
 #[kani::unwind(4)]
 fn c07_is_same_contract() {
     let a1: [u8; 1] = kani::any();
-    assert!(is_same(a1) == Some(a1[0]));
+    kani::assert(is_same(a1) == Some(a1[0]), "C07: C05: is_same on one word");
     let a2: [u8; 2] = kani::any();
-    assert!(is_same(a2) == if a2[0] == a2[1] { Some(a2[0]) } else { None });
+    let which: u8 = kani::any();
+    if which == 0 { kani::assert(is_same(a2) == if a2[0] == a2[1] { Some(a2[0]) } else { None }, "C07: C05: is_same must be Some only if all words are equal (N=2)"); }
     let a3: [u16; 3] = kani::any();
-    assert!(is_same(a3) == if a3[0] == a3[1] && a3[1] == a3[2] { Some(a3[0]) } else { None });
+    if which == 1 { kani::assert(is_same(a3) == if a3[0] == a3[1] && a3[1] == a3[2] { Some(a3[0]) } else { None }, "C07: C05: is_same must be Some only if all words are equal (N=3)"); }
     let a0: [u8; 0] = [];
-    assert!(is_same(a0).is_none());
+    kani::assert(is_same(a0).is_none(), "C07: is_same on an empty pixel");
 }
 
 /// the strobe count of a repeated all-same-word pixel must not overflow (count * N >= 2^32); concrete input
